@@ -21,7 +21,7 @@ func GenDescs(r *gen.Rand, max int) []Desc {
 		case 0x7f:
 			n = 5 + r.Intn(3)
 		case 0xb0:
-			n = 4 + r.Intn(3)
+			n = 7 + r.Intn(3) // complete with or without the dependency PID
 		case 0xe9, 0xcc:
 			n = 0
 		}
@@ -34,16 +34,20 @@ func GenDescs(r *gen.Rand, max int) []Desc {
 		d.Body = r.Bytes(n)
 		if d.Tag == 0x0a {
 			for k := 0; k+4 <= n; k += 4 {
-				copy(d.Body[k:], []string{"eng", "spa", "fra", "und"}[r.Intn(4)])
+				copy(d.Body[k:], []string{"eng", "spa", "fra", "und", "ENG", "Deu", "QAA", "zxx"}[r.Intn(8)]) // (capitals are met in the field)
 			}
 		}
 		if d.Tag == 0x05 && r.Bool() {
-			copy(d.Body, "DOVI")
+			copy(d.Body, r.PickString(RegistrationIDs))
 		}
 		ds = append(ds, d)
 	}
 	return ds
 }
+
+// RegistrationIDs are format identifiers registered with the SMPTE RA that are
+// met in registration descriptors (DOVI, the one the library looks for, most often).
+var RegistrationIDs = []string{"DOVI", "DOVI", "DOVI", "DOVI", "AC-3", "EAC3", "HEVC", "CUEI", "HDMV", "BSSD", "DTS1", "DTS2", "DTS3", "VC-1", "KLVA", "ID3 ", "Opus", "drac", "GA94", "SCTE", "dvhe", "mlpa", "AVSV", "AV01", "VANC", "TSHV", "ac-3", "hevc"}
 
 var genStreamTypes = []byte{0x02, 0x1b, 0x24, 0x0f, 0x81, 0x87, 0x86, 0x15, 0x06, 0x03, 0x04, 0x11, 0x88, 0xff, 0x00, 0x80, 0xea}
 
@@ -76,7 +80,14 @@ func GenPMT(r *gen.Rand, nStreams int) PMT {
 		if n > 20 {
 			maxd = 1
 		}
-		p.Streams = append(p.Streams, ES{Type: genStreamTypes[r.Intn(len(genStreamTypes))], PID: pid, Descs: GenDescs(r, maxd)})
+		es := ES{Type: genStreamTypes[r.Intn(len(genStreamTypes))], PID: pid, Descs: GenDescs(r, maxd)}
+		if r.Chance(12) {
+			// the DVB / ATSC way of announcing a codec: a private (or user private) stream type and a
+			// registration descriptor that names the format
+			es.Type = r.PickByte([]byte{0x06, 0x06, 0x06, 0x06, 0x80, 0x81, 0x05, 0xa0})
+			es.Descs = append([]Desc{{Tag: 0x05, Body: append([]byte(r.PickString(RegistrationIDs[4:])), r.Bytes(r.Intn(3))...)}}, es.Descs...)
+		}
+		p.Streams = append(p.Streams, es)
 	}
 	if nStreams < 0 && n >= 1 && n <= 8 && r.Chance(30) {
 		// one stream with 255 .. 450 descriptors (empty or one byte long): ES_info_length has room for about 500
